@@ -247,7 +247,7 @@ class Builder:
                 out[u["alias"]] = ("extern", "::".join(path))
             return
         if u["glob"]:
-            out.update(self.module_exports(ab, seen))
+            out.update(self.module_exports(ab, set(seen)))
             return
         # a named import: module item or type
         mod, name = ab[:-1], ab[-1]
@@ -260,7 +260,7 @@ class Builder:
             out[u["alias"]] = ("mod", ab)
         else:
             # re-export chain: look in the exporting module
-            ex = self.module_exports(mod, seen)
+            ex = self.module_exports(mod, set(seen))  # (a copy: the guard is against cycles, not against asking twice)
             if name in ex:
                 out[u["alias"]] = ex[name]
 
@@ -1560,7 +1560,7 @@ class Builder:
             x = self._bool_cs(b["e"], var)
             return cs_compl(x) if x else None
         if k == "mcall":
-            recv_ = self.resolve_const(b["recv"], getattr(self, "_pred_env", {})) if b["m"] == "contains" else b["recv"]
+            recv_ = self.resolve_const(b["recv"], getattr(self, "_pred_env", {}), kinds=("lit", "array", "tuple", "range")) if b["m"] == "contains" else b["recv"]
             if b["m"] == "contains" and len(b["args"]) == 1 and isvar(b["args"][0]) and recv_["k"] == "lit" and recv_["t"] == "str":
                 return cs_in(recv_["v"])
             if isvar(b["recv"]) and not b["args"]:
